@@ -11,11 +11,22 @@ JUDGES = ["c16"]
 
 def main(tier: str, seed: int) -> int:
     run = Run(PROP, tier, seed)
-    nos = {"soi": False, "push_empty": True, "trivia_refs": True, "trivia_explicit": True}
+    nos = {"soi": False, "push_empty": True, "trivia_refs": True, "trivia_explicit": True, "zero_counts": True, "zero_width_stack_reps": True, "skipuntil_ci": True}
     extra = {"extra_alpha": " #", "profile_overrides": nos, "c16_inputs": run.pick(40, 120)}
     shards = []
     shards += E.random_shards(PROP, run, JUDGES, profile="full", count=run.pick(45, 500), cap=run.pick(60, 160), maxlen=run.pick(3, 4), extra=extra)
-    shards += E.random_shards(PROP, run, JUDGES, profile="stack", count=run.pick(25, 300), cap=run.pick(60, 160), maxlen=4, extra={"c16_inputs": run.pick(40, 120)})
+    shards += E.random_shards(PROP, run, JUDGES, profile="stack", count=run.pick(25, 300), cap=run.pick(60, 160), maxlen=4, extra={"c16_inputs": run.pick(40, 120), "profile_overrides": {"zero_width_stack_reps": True, "push_empty": True}})
+    import random as _random
+
+    from pv.gen import grammars as G
+
+    dig = list(range(G.stack_dig_size()))
+    _random.Random(E.seed_int(PROP, run.seed, "dig")).shuffle(dig)
+    if run.quick:
+        dig = dig[:800]
+    for j in range(16):
+        shards.append({"prop": PROP, "judges": JUDGES, "modes": ["I", "GI", "O", "GO"], "source": "stackdig", "indices": dig[j::16], "seed": E.seed_int(PROP, run.seed, "dg", j), "cap": 30, "maxlen": 2, "c16_inputs": 30, "sample_at": 10**9})
+        shards.append({"prop": PROP, "judges": JUDGES, "modes": ["I", "GI", "O", "GO"], "source": "stackscen", "seed": E.seed_int(PROP, run.seed, "sc", j), "count": run.pick(25, 300), "cap": 60, "maxlen": 4, "c16_inputs": 40, "sample_at": 10**9})
     shards += E.random_shards(PROP, run, JUDGES, profile="trivia", count=run.pick(25, 300), cap=run.pick(60, 160), maxlen=3, extra=extra)
     shards += E.matrix_shards(PROP, run, JUDGES, sample=run.pick(1200, 0), cap=run.pick(60, 160), maxlen=3, extra={"c16_inputs": run.pick(30, 100)})
     E.execute(run, shards)
